@@ -104,7 +104,7 @@ class QGen:
         rng = self.rng
         kinds = rng.sample([k for k in KINDS if self.vocab.get(k) is not None], nkinds or rng.choice([1, 1, 1, 2]))
         aliases = rng.sample([a for a in ALIASES if a not in KINDS], len(kinds))
-        if collide and len(kinds) == 2:
+        if len(kinds) == 2 and (collide or rng.random() < 0.35):
             # aliases that contain one another, in either FROM order
             pair = list(rng.choice([('c', 'mc'), ('m', 'md'), ('md', 'mdx'), ('x', 'selectx'), ('a', 'name'), ('e', 'e1'), ('p', 'pq'), ('b', 'ab')]))
             if rng.random() < 0.5:
